@@ -173,7 +173,7 @@ def gen_rust(prop, seed, shard, n_hist, tier):
 def gen_capacity_histories(seed):
     """C10: constructors over capacity arguments 0..4096 (one tiny history each)"""
     out = []
-    for c in list(range(0, 70)) + [100, 127, 128, 129, 255, 256, 1000, 4095, 4096]:
+    for c in range(0, 4097):          # every capacity argument of the property's range
         h = Hist(f"cap{c}", "rust", c)
         h.add("I 1 1 10")
         h.add("L")
